@@ -77,8 +77,7 @@ PROPS = {
                 "the listing is taken as reference and the files, a fresh manager and the logins that authenticate must equal it after every round; "
                 "non-trivial = a rename or delete followed by login attempts with the old login, or a restart after >= 3 edits; "
                 "distinct = hash(history)",
-        "assumptions": ["edits of accounts with live sessions and renames onto existing logins are excluded by construction (outside the statement)",
-                        "names starting with a newline are excluded from the state machine (known finding yaml-leading-newline, decided by TestC15LeadingNewline)"],
+        "assumptions": ["edits of accounts with live sessions and renames onto existing logins are excluded by construction (outside the statement)"],
         "quick": {"runs": [{"test": "^TestC15$", "shards": 12, "checks": 50, "timeout": 600},
                            {"test": "^TestC15Burst$", "shards": 4, "checks": 25, "timeout": 600},
                            {"test": "^TestC15LeadingNewline$", "shards": 1, "checks": 30, "timeout": 300}]},
@@ -222,13 +221,15 @@ PROPS = {
                 "concurrent delete of an older article; every accepted post present once under its own id with its content, older articles unchanged, "
                 "reload reproduces the category; non-trivial = >= 1 delete and >= 2 posts in the history (every step lists everything), every burst; distinct = hash(history)",
         "assumptions": ["creating over an existing name, replies to a missing parent and posts into a missing category are excluded (outside the statement / C03)",
-                        "text starting with a newline is excluded from the state machine (known finding yaml-leading-newline, decided by TestC18LeadingNewline)"],
+                        "category / bundle names that hold a line break and start with a line break, tab or U+2028 are not in the name pool (known finding yaml-key-block-scalar, decided by TestC18KeyBlockScalar)"],
         "quick": {"runs": [{"test": "^TestC18$", "shards": 12, "checks": 60, "timeout": 600},
                            {"test": "^TestC18Burst$", "shards": 4, "checks": 40, "timeout": 600},
-                           {"test": "^TestC18LeadingNewline$", "shards": 1, "checks": 20, "timeout": 300}]},
+                           {"test": "^TestC18LeadingNewline$", "shards": 1, "checks": 20, "timeout": 300},
+                           {"test": "^TestC18KeyBlockScalar$", "shards": 1, "checks": 20, "timeout": 300}]},
         "thorough": {"runs": [{"test": "^TestC18$", "shards": 12, "checks": 2500, "timeout": 3400},
                               {"test": "^TestC18Burst$", "shards": 4, "checks": 2500, "timeout": 3400},
-                              {"test": "^TestC18LeadingNewline$", "shards": 1, "checks": 200, "timeout": 600}]},
+                              {"test": "^TestC18LeadingNewline$", "shards": 1, "checks": 200, "timeout": 600},
+                              {"test": "^TestC18KeyBlockScalar$", "shards": 1, "checks": 200, "timeout": 600}]},
     },
     "C12": {
         "title": "Chat reaches exactly its audience",
